@@ -9,6 +9,10 @@ package amp
 //   text  bytes of element text so far (0: no element is open), counting the newline after <pre> and every separator
 //   word  bytes written since the last whitespace byte
 // The bounds of the property are literals here (32-byte words, 32 KiB of text per element), not the package constants.
+// The package keeps no mutable package-level state: activations (two decoders, two requests) cannot influence each
+// other through it.
+//@ stateless package [C10,C11]
+//
 //@ default model int
 //@ ghost field elementEncoder.text int
 //@ ghost field elementEncoder.word int
